@@ -23,6 +23,11 @@ structure FOps (α : Type) where
   gt : α → α → Bool
   lt : α → α → Bool
 
+/-- `distance[a, b] = v` on a C array seen as a function of its two indices (round 5: the outer
+loops of `_supremum_distance_matrix_rp` are translated as folds over such stores) -/
+def store2 {α : Type} (d : Int → Int → α) (a b : Int) (v : α) : Int → Int → α :=
+  fun x y => if x = a ∧ y = b then v else d x y
+
 /-- C07's exact arithmetic with NaN -/
 def vOps : FOps V := ⟨some 0, absdiff, gtV, ltV⟩
 
@@ -67,12 +72,42 @@ end X
 
 def xOps (rnd : Rat → Rat) : FOps X := ⟨.fin 0, X.absdiff rnd, X.gt, X.lt⟩
 
+/-! ### round 5: overflow of a finite difference
+
+`|a - b|` of two finite doubles is `+inf` when its rounded value (exponent range unbounded
+upwards, as `rnd64`) reaches `2^1024`.  `xOpsO rnd` is `xOps rnd` with that overflow; the driver
+executes the generated kernels at `xOpsO rnd64`.  `Properties/C08.lean` (`overflow_free_*`) proves
+that the two structures give the same kernels whenever no coordinate difference overflows — always
+for the embeddings of the class (float32-born) — so the theorems stated at `xOps rnd` transfer. -/
+
+/-- `2^1024`: the first magnitude that is not a finite double -/
+def ovfBound : Rat := ((2 ^ 1024 : Nat) : Rat)
+
+/-- overflow of a rounded result to `+inf` -/
+def X.ovf : X → X
+  | .fin q => if ovfBound ≤ q then .pinf else .fin q
+  | x => x
+
+/-- `abs(a - b)` with overflow -/
+def X.absdiffO (rnd : Rat → Rat) (a b : X) : X := X.ovf (X.absdiff rnd a b)
+
+def xOpsO (rnd : Rat → Rat) : FOps X := ⟨.fin 0, X.absdiffO rnd, X.gt, X.lt⟩
+
 /-- C07's values inside the doubles -/
 def toX : V → X
   | some q => .fin q
   | none => .nan
 
-/-- binary64 round-to-nearest-even of a non-negative rational in the normal range (C09's `rn53`) -/
-def rnd64 (q : Rat) : Rat := Pyunicorn.Similarity.rn53 q
+/-- binary64 round-to-nearest-even of a rational `q ≥ 0` (the `abs` has been taken), *with gradual
+underflow*: the exponent of the last place is `⌊log₂ q⌋ - 52`, clamped at `-1074` (round 5; rounds
+3–4 used C09's `rn53`, which has no clamp — `Properties/C08.lean` `rnd64_eq_rn53_on_differences`
+proves that the two agree on every difference of two doubles, and `rnd64_eq_rn53_normal` in the
+normal range).  Overflow of a finite difference to `inf` is not modelled. -/
+def rnd64 (q : Rat) : Rat :=
+  if q ≤ 0 then 0 else
+    let e0 := Pyunicorn.Similarity.binExp q - 52
+    let e := if e0 < -1074 then -1074 else e0
+    (Pyunicorn.Similarity.roundHalfEven (q / Pyunicorn.Similarity.twoPow e) : Rat)
+      * Pyunicorn.Similarity.twoPow e
 
 end Pyunicorn.LineDist
